@@ -1110,52 +1110,75 @@ def variants():
         return False
     out.append(twin("placeholder selection written with `is None`", PATH, none_test_swapped))
 
+    def _operand_release(f):
+        for c in calls_in(f, name="_replace_unique_string_with_none_name"):
+            if c.args and isinstance(c.args[0], ast.List) and any(isinstance(e, ast.Name) and e.id == "parameter" for e in c.args[0].elts):
+                return c
+        return None
+
+    def _blocks_of(f):
+        for n in ast.walk(f):
+            for fld in ("body", "orelse", "finalbody"):
+                blk = getattr(n, fld, None)
+                if isinstance(blk, list) and blk and isinstance(blk[0], ast.stmt):
+                    yield blk
+
     def drop_param(tree):
         f = find_func(tree, F2F)
-        for c in calls_in(f, name="_replace_unique_string_with_none_name"):
-            lst = c.args[0]
-            lst.elts = [e for e in lst.elts if not (isinstance(e, ast.Name) and e.id == "parameter")]
-            return True
-        return False
+        c = _operand_release(f)
+        if c is None:
+            return False
+        c.args[0].elts = [e for e in c.args[0].elts if not (isinstance(e, ast.Name) and e.id == "parameter")]
+        return True
     out.append(witness("drop parameter from name-restore list", PATH, drop_param, "R-C13-1"))
 
     def names_before_index(tree):
         f = find_func(tree, F2F)
-        body = f.body
-        ri = [i for i, s in enumerate(body) if isinstance(s, ast.Expr) and isinstance(s.value, ast.Call) and
-              isinstance(s.value.func, ast.Attribute) and s.value.func.attr == "restore_original_indeces"]
-        rn = [i for i, s in enumerate(body) if isinstance(s, ast.Expr) and
-              call_name(s.value) == "_replace_unique_string_with_none_name"]
-        if not ri or not rn:
+        rel = _operand_release(f)
+        ri = rn = None
+        for blk in _blocks_of(f):
+            for i, s in enumerate(blk):
+                if isinstance(s, ast.Expr) and isinstance(s.value, ast.Call) and isinstance(s.value.func, ast.Attribute) and \
+                        s.value.func.attr == "restore_original_indeces":
+                    ri = (blk, i)
+                if isinstance(s, ast.Expr) and s.value is rel:
+                    rn = (blk, i)
+        if ri is None or rn is None:
             return False
-        body[ri[0]], body[rn[0]] = body[rn[0]], body[ri[0]]
+        ri[0][ri[1]], rn[0][rn[1]] = rn[0][rn[1]], ri[0][ri[1]]
         return True
     out.append(witness("restore names before indices", PATH, names_before_index, "R-C13-1"))
 
     def delete_restore(tree):
         f = find_func(tree, F2F)
-        for s in f.body:
-            if isinstance(s, ast.Expr) and isinstance(s.value, ast.Call) and isinstance(s.value.func, ast.Attribute) \
-                    and s.value.func.attr == "restore_original_indeces":
-                return replace_node(s, ast.Pass())
+        for blk in _blocks_of(f):
+            for i, s in enumerate(blk):
+                if isinstance(s, ast.Expr) and isinstance(s.value, ast.Call) and isinstance(s.value.func, ast.Attribute) \
+                        and s.value.func.attr == "restore_original_indeces":
+                    blk[i] = ast.Pass()
+                    return True
         return False
     out.append(witness("delete index restore", PATH, delete_restore, "R-C13-1"))
 
-    def early_return(tree):
+    def release_outside_finally(tree):
         f = find_func(tree, F2F)
-        for i, s in enumerate(f.body):
-            if isinstance(s, ast.If) and isinstance(s.test, ast.Name) and s.test.id == "have_commons":
-                s.body.append(parse_stmt("return prm, obj"))
+        for n in ast.walk(f):
+            if isinstance(n, ast.Try) and n.finalbody and any(isinstance(x, ast.Call) and isinstance(x.func, ast.Attribute) and
+                                                              x.func.attr == "restore_original_indeces" for fb in n.finalbody for x in ast.walk(fb)):
+                n.body = n.body + n.finalbody
+                n.finalbody = []
+                n.handlers = [ast.ExceptHandler(type=ast.Name(id="KeyError", ctx=ast.Load()), name=None, body=[ast.Raise(exc=None, cause=None)])]
                 return True
         return False
-    out.append(witness("early return before release", PATH, early_return, "R-C13-1"))
+    out.append(witness("index restore on the normal path only", PATH, release_outside_finally, "R-C13-1"))
 
     def drop_token(tree):
         f = find_func(tree, F2F)
-        for c in calls_in(f, name="_replace_unique_string_with_none_name"):
-            c.args[1] = ast.List(elts=[], ctx=ast.Load())
-            return True
-        return False
+        c = _operand_release(f)
+        if c is None:
+            return False
+        c.args[1] = ast.List(elts=[], ctx=ast.Load())
+        return True
     out.append(witness("name restore with another token", PATH, drop_token, "R-C13-1"))
 
     def save_after(tree):
